@@ -41,7 +41,9 @@ Get(i, j) == IF j \in v_rows[i] THEN 1 ELSE 0
 EnabledGet(i, j) == i \in Rows /\ j \in Cols /\ j \notin v_undef[i]
 RangeDefined(i, a, b) == \A c \in a..(b-1) : c \notin v_undef[i]
 \* count_ones / get_row_iter: only on the sparse part
-EnabledRowRange(i, a, b) == i \in Rows /\ a <= b /\ b <= SparseW /\ RangeDefined(i, a, b)
+\* (b < v_w: a range ending at the full width is outside the contract - the dense back-end's row iterator then reads one word
+\* past the last row when the width is a multiple of 64; with a dense tail of at least one column b <= SparseW implies it)
+EnabledRowRange(i, a, b) == i \in Rows /\ a <= b /\ b <= SparseW /\ b < v_w /\ RangeDefined(i, a, b)
 CountOnes(i, a, b) == Cardinality({c \in v_rows[i] : a <= c /\ c < b})
 RowOnes(i, a, b) == {c \in v_rows[i] : a <= c /\ c < b}
 \* get_ones_in_column: indexed, sparse part, column not stale, defined
